@@ -3,7 +3,7 @@
    is outside this model: here it is the complete ClientHello whose message_seq follows the first
    one; the cookie comparison itself is checked on the implementation by the C13 monitors. *)
 From Coq Require Import List NArith Bool.
-From DtlsV Require Import Gen.GeneratedHs13 Hs.Hs13 Hs.Hs13Live Hs.Hs13Sound.
+From DtlsV Require Import Gen.GeneratedHs13 Hs.Hs13 Hs.Hs13Live Hs.Hs13Sound Hs.Hs13Cookie Hs.Hs13CookieSound.
 Import ListNotations.
 Open Scope N_scope.
 
@@ -85,6 +85,43 @@ Theorem C13hs13_hrr_only_for_client_hello_refuted :
     snd (on_datagram stale_cfg e d now) <> [].
 Proof. exact hrr_only_for_client_hello_refuted. Qed.
 Print Assumptions C13hs13_hrr_only_for_client_hello_refuted.
+
+(* ---- at the level of cookie VALUES (model Hs/Hs13Cookie.v, tied to the code by the forged second
+   ClientHello family of TestVerifHs13Cookie: cookie absent / wrong / cut / extended / right on another
+   hello / right; HelloRetryRequests that ask for the cookie only and for another key-share group as well) *)
+
+(* with hello verification on, EVERY HelloRetryRequest the server ever emits - whether or not it also
+   asks for another key-share group - carries the cookie of the connection, over all input histories *)
+Theorem C13hs13_hrr_always_carries_cookie :
+  forall (verify : bool) (k : N) (is : list cin),
+    verify = true ->
+    forall i o c g, In (i, o) (snd (crun (csrv_init verify k) is)) -> In (OHRR c g) o -> c = Some k.
+Proof. exact hrr_always_carries_cookie. Qed.
+Print Assumptions C13hs13_hrr_always_carries_cookie.
+
+(* the ServerHello flight only after a second ClientHello whose cookie extension EQUALS the issued
+   cookie ("no cookie" matches nothing) and which repeats the first hello *)
+Theorem C13hs13_cookie_gate :
+  forall (verify : bool) (k : N) (is : list cin),
+    verify = true ->
+    (exists i, In (i, [OFlight4]) (snd (crun (csrv_init verify k) is))) ->
+    exists ok, In (ICH2 (Some k) true ok) is.
+Proof. exact cookie_gate13. Qed.
+Print Assumptions C13hs13_cookie_gate.
+
+Theorem C13hs13_cookie_step_shape :
+  forall (s : csrv) (i : cin) (o : list cout),
+    snd (cstep s i) = o ->
+    o = [] \/ (exists c g, o = [OHRR c g] /\ i <> ITimerC) \/ o = [OFlight4] \/ o = [OAlertC].
+Proof. exact cstep_shape. Qed.
+Print Assumptions C13hs13_cookie_step_shape.
+
+(* non-vacuity: key-share mismatch; a blind second ClientHello without cookie is refused, the echo accepted *)
+Example C13hs13_cookie_example :
+  map snd (snd (crun (csrv_init true 1) [ICH1 false; ICH2 None true true])) = [[OHRR (Some 1) true]; [OAlertC]] /\
+  map snd (snd (crun (csrv_init true 1) [ICH1 false; ICH1 false; ICH2 (Some 1) true true]))
+  = [[OHRR (Some 1) true]; [OHRR (Some 1) true]; [OFlight4]].
+Proof. vm_compute. split; reflexivity. Qed.
 
 (* the premises hold for the regenerated flight structures of the current tree *)
 Theorem C13hs13_premises_v13 : hrr_cfg (cfg13 g13_v13).
